@@ -32,6 +32,9 @@ def run_shard(spec, col):
         if col.want(i):
             rng = case_rng(seed, shard, i)
             sc = {"kind": "none", "shape": rng.choice([(1, 1), (1, 2), (2, 1), (2, 2), (3, 1), (2, 3)]), "random_job": True, "max_tasks": 8}
+            if i == 0 and spec["shard_no"] == 0:
+                sc = {"kind": "none", "shape": rng.choice([(1, 1), (1, 2), (2, 2)]), "ambiguous_names": True}
+                col.count("real_runs_with_ambiguous_name_concatenations")
             guarded(col, i, c05.run_scenario, col, sc, spec["shard_no"], i % 8, i, rng, 21000, "C01")
 
 
